@@ -150,13 +150,17 @@ HBIN = os.path.join(HARNESS, 'target', 'release', 'jpharness')
 MBIN = os.path.join(LEAN, '.lake', 'build', 'bin', 'jpmodel')
 
 
-def run_lines(binary, mode, lines, timeout=120, isolate=True):
+def run_lines(binary, mode, lines, timeout=40, isolate=True, max_timeouts=2):
     """run a line-protocol executable over `lines`; survive aborts and hangs: the case that kills the process is
-    reported as {"abort": rc} / {"timeout": 1} and the run resumes after it"""
+    reported as {"abort": rc} / {"timeout": 1} and the run resumes after it.  After `max_timeouts` hangs the remaining
+    cases are reported as {"skipped": 1} (a hang is a violation anyway; this keeps a hanging mutant from stalling the check)"""
     out = []
     start = 0
     n = len(lines)
+    timeouts = 0
     while start < n:
+        if timeouts >= max_timeouts:
+            out.extend([json.dumps({'skipped': 1})] * (n - start)); break
         chunk = lines[start:]
         try:
             p = subprocess.run([binary, mode], input='\n'.join(chunk) + '\n', capture_output=True, text=True, timeout=timeout)
@@ -167,7 +171,7 @@ def run_lines(binary, mode, lines, timeout=120, isolate=True):
             so = e.stdout or b''
             if isinstance(so, bytes): so = so.decode('utf-8', 'replace')
             got = so.split('\n')[:-1]
-            rc = 'timeout'
+            rc = 'timeout'; timeouts += 1
         if len(got) >= len(chunk):
             out.extend(got[:len(chunk)]); break
         out.extend(got)
@@ -176,7 +180,7 @@ def run_lines(binary, mode, lines, timeout=120, isolate=True):
     return out
 
 
-def run_sharded(binary, mode, lines, timeout=180):
+def run_sharded(binary, mode, lines, timeout=40):
     """split over cores for large suites"""
     if len(lines) < 4000:
         return run_lines(binary, mode, lines, timeout)
